@@ -664,6 +664,28 @@ theorem refused_not_found {h h' : Heap} {self qn : Nat} {allowsText : Bool}
   rw [construct_atomic hts hcs hr q h1 h2 h3]
   exact hnew q
 
+/-- **C07 (wrapper factory `StyleRefElement`, refused `stylename=` / `classnames=`)**: the style
+    arguments are checked before the element exists — the heap is literally unchanged. -/
+theorem styleRefConstruct_refused_args {h : Heap} {e : Err} {self qn : Nat} {allowsText : Bool}
+    {text : Option (Id × Bool)} {cdata : Option Id} {attrs : List AttrArg} {required : List Nat}
+    {parent : Option (Id × Bool)} :
+    (styleRefConstruct (.error e) self qn allowsText text cdata attrs required parent).run h = (h, .error e) := by
+  unfold styleRefConstruct; simp
+
+/-- **C07 (wrapper factory `StyleRefElement` with `parent=`)**: whatever makes the call raise,
+    every node other than the objects created by the call itself is exactly as before. -/
+theorem styleRefConstruct_atomic {h h' : Heap} {pre : Except Err Unit} {self qn : Nat} {allowsText : Bool}
+    {text : Option (Id × Bool)} {cdata : Option Id} {attrs : List AttrArg} {required : List Nat}
+    {parent : Option (Id × Bool)} {e : Err}
+    (hts : ∀ t ne, text = some (t, ne) → t ≠ self) (hcs : ∀ c, cdata = some c → c ≠ self)
+    (hr : (styleRefConstruct pre self qn allowsText text cdata attrs required parent).run h = (h', .error e)) :
+    ∀ x, x ≠ self → (∀ t ne, text = some (t, ne) → x ≠ t) → (∀ c, cdata = some c → x ≠ c) →
+      h' x = h x := by
+  unfold styleRefConstruct at hr
+  cases pre with
+  | error e0 => simp at hr; intro x _ _ _; rw [hr.1]
+  | ok u => simp at hr; exact construct_atomic hts hcs hr
+
 /-! ### the theorems are about the statement order: two counter-models, and non-vacuity -/
 
 /-- `insertBefore` with the statement order it had before repair 77f9994 (detach the new child,
